@@ -44,6 +44,7 @@ meta = {"name": name, "breaks_property": prop, "confirmed": bool(ok),
         "ran": {"a_demo_without_change": a, "b_demo_with_change": b, "c_existing_suite_with_change": c,
                 "commands": ["git apply demo.diff; cargo test --offline seeded_demo", "git apply patch.diff; cargo test --offline seeded_demo", "(patch only) cargo test --offline", "tools/mutant.sh patch.diff ALL"]},
         "checks_reporting_it": det.split(), "checks_erroring": err.split(),
+        "first_run": {"checks_reporting_it": det.split(), "checks_erroring": err.split()},
         "needs_to_manifest": "see README.md"}
 json.dump(meta, open(os.path.join(here, "seeded", name, "meta.json"), "w"), indent=1)
 print("confirmed=%s detected_by=%s" % (ok, det))
